@@ -116,6 +116,23 @@ class FaultyMemoryCache(MemoryCache):
         return super().exists(evaluatable, options)
 
 
+class DelegatingCache(Cache):
+    """A contract-abiding adapter (tier / namespace / pass-through) in front of a faulty store: the failure the store
+    raises is handed on as it is, so the CacheGetFailure names the inner store, not the object the dataset holds."""
+
+    def __init__(self, inner):
+        self.inner = inner
+
+    def get(self, evaluatable, options):
+        return self.inner.get(evaluatable, options)
+
+    def set(self, evaluatable, options, value):
+        self.inner.set(evaluatable, options, value)
+
+    def exists(self, evaluatable, options):
+        return self.inner.exists(evaluatable, options)
+
+
 class Runaway(BaseException):
     """Raised by the persistent backend when one evaluation makes an unreasonable number of backend calls."""
 
@@ -221,7 +238,14 @@ HISTORIES = [
 
 def run_script(ctx, gname, program, history, actions, own_exists):
     script = Script(actions)
-    G = build(program, cache_factory=lambda kind: FaultyMemoryCache(script) if own_exists == "derived" else FaultyCache(script, own_exists))
+    def factory(kind):
+        if own_exists == "derived":
+            return FaultyMemoryCache(script)
+        if own_exists == "delegating":
+            return DelegatingCache(FaultyCache(script, True))
+        return FaultyCache(script, own_exists)
+
+    G = build(program, cache_factory=factory)
     clean = build(program)
     evals = {}
     W = {"graph": gname, "script": list(actions), "own_exists": own_exists, "history": history}
@@ -263,7 +287,7 @@ def run(ctx):
         for h, hist in enumerate(HISTORIES):
             if (h == 2) != (gname == "overload") or (h == 3) != (gname in FAILING):
                 continue
-            for own in (False, True) + (("derived",) if gname in ("single", "chain") else ()):
+            for own in (False, True) + (("derived",) if gname in ("single", "chain") else ()) + (("delegating",) if gname in ("chain", "callables") else ()):
                 jobs.append((gname, program, hist, own))
     k = 0
     for gname, program, hist, own in jobs:
@@ -290,7 +314,7 @@ def run(ctx):
         gname = r.choice(list(GRAPHS))
         hist = HISTORIES[2] if gname == "overload" else HISTORIES[3] if gname in FAILING else r.choice(HISTORIES[:2])
         actions = [r.choice(ACTIONS) if r.random() < 0.5 else "behave" for _ in range(r.choice([8, 16, 40]))]
-        run_script(ctx, gname, GRAPHS[gname], hist, actions, r.choice([True, False, "derived"]))
+        run_script(ctx, gname, GRAPHS[gname], hist, actions, r.choice([True, False, "derived", "delegating"]))
 
 
 def replay(ctx, rep):
